@@ -133,6 +133,7 @@ def run(ctx):
             ctx.violation(f"Ok returned for a {cls} matrix with the stability test on", r, observed=a)
 
     through_samples(ctx)
+    window_probes(ctx)
     if ctx.mismatches and not ctx.violations:
         search_failing_input(ctx)
 
@@ -200,6 +201,57 @@ def through_samples(ctx):
                                       observed={"l": lb, "inv": inv})
                 else:
                     ctx.violation("Ok sample with a non-finite decomposition although the stability test is on", small, observed=a["meta"]["decomp"])
+
+
+def window_probes(ctx):
+    """tolerances placed between ||inverse*A - 1||_21 and ||A*inverse - 1||_21 (both evaluated in binary64): the property (and
+    the model) use the first; an implementation that multiplies in the other order, or takes another norm of the same residual,
+    decides differently exactly there."""
+    rng = ctx.rng
+    base = []
+    for n in range(2, 7):
+        for _ in range(4 if ctx.quick else 20):
+            fam, f = rng.choice(gen.SPD_FAMILIES)
+            base.append((n, f(rng, n)))
+    a0 = run_harness([{"op": "decomp", "n": n, "a": gen.flat_bits(A)} for n, A in base])
+    reqs, infos = [], []
+    for (n, A), a in zip(base, a0):
+        if a.get("status") != "ok" or not all(X.is_finite_bits(b) for b in a["inv"]):
+            continue
+        inv = [[b2f(a["inv"][i * n + j]) for j in range(n)] for i in range(n)]
+        d1 = float_l21_residual(n, A, inv)
+        d2 = float_l21_residual_of_product(n, A, inv)
+        if not (math.isfinite(d1) and math.isfinite(d2)) or abs(d1 - d2) <= 0.05 * max(d1, d2):
+            continue
+        tol = 0.5 * (d1 + d2)
+        reqs.append({"op": "decomp", "n": n, "a": gen.flat_bits(A), "tol": f2b(tol)}); infos.append((d1, d2, tol))
+    impl = run_harness(reqs); model = run_driver(reqs)
+    for r, a, m, (d1, d2, tol) in zip(reqs, impl, model, infos):
+        ctx.case(["window", r["a"], r["tol"]], nontrivial=True)
+        ctx.count("window_probe")
+        if a.get("status") != m.get("status"):
+            ctx.mismatch("decompose model vs decompose_for_tropical (tolerance between the L21 norms of inverse*A-1 and A*inverse-1)", r,
+                         {"status": a.get("status")}, {"status": m.get("status")})
+            if a.get("status") == "ok" and d1 > tol:
+                ctx.violation(f"Ok returned although the L21 distance of inverse*matrix from the identity is {d1:.3e} > tolerance {tol:.3e} "
+                              f"(the distance of matrix*inverse is {d2:.3e})", r, expected="unstable", observed=a)
+
+
+def float_l21_residual_of_product(n, A, inv):
+    """||A*inv - 1||_{2,1} in binary64 (the other operand order)"""
+    import numpy as np
+    with np.errstate(all="ignore"):
+        res = np.float64(0.0)
+        for j in range(n):
+            col = np.float64(0.0)
+            for i in range(n):
+                acc = np.float64(0.0)
+                for k in range(n):
+                    acc = acc + np.float64(A[i][k]) * np.float64(inv[k][j])
+                z = acc - np.float64(1.0 if i == j else 0.0)
+                col = col + z * z
+            res = res + np.sqrt(col)
+        return float(res)
 
 
 def float_l21_residual(n, A, inv):
